@@ -1380,7 +1380,9 @@ class Py2Cpp(ITranspiler):
 		return self.render(node, 'operation/unary_operator', vars={'operator': operator, 'value': value})
 
 	def on_not_compare(self, node: defs.NotCompare, operator: str, value: str) -> str:
-		return self.render(node, 'operation/unary_operator', vars={'operator': '!', 'value': value})
+		# XXX C++の`!`は2項演算子より優先度が高いため、Pythonの`not`と同じ結合になる様に括弧で補完
+		value_grouped = f'({value})' if isinstance(node.value, (defs.BinaryOperator, defs.TernaryOperator)) else value
+		return self.render(node, 'operation/unary_operator', vars={'operator': '!', 'value': value_grouped})
 
 	def on_or_compare(self, node: defs.OrCompare, elements: list[str]) -> str:
 		return self.proc_binary_operation(node, elements)
@@ -1389,7 +1391,10 @@ class Py2Cpp(ITranspiler):
 		return self.proc_binary_operation(node, elements)
 
 	def on_comparison(self, node: defs.Comparison, elements: list[str]) -> str:
-		return self.proc_binary_operation(node, elements)
+		# XXX C++のビット演算子は比較演算子より優先度が低いため、Pythonと同じ結合になる様に括弧で補完
+		bitwise_types = (defs.OrBitwise, defs.XorBitwise, defs.AndBitwise)
+		grouped = [f'({element})' if isinstance(in_node, bitwise_types) else element for in_node, element in zip(node.elements, elements)]
+		return self.proc_binary_operation(node, grouped)
 
 	def on_or_bitwise(self, node: defs.OrBitwise, elements: list[str]) -> str:
 		return self.proc_binary_operation(node, elements)
